@@ -19,7 +19,7 @@ OPS = """
 query GetUser($f: Filter, $c: Color) { user(f: $f, c: $c) { id name color } }
 query Things { things { __typename ... on User { name } ... on Bot { model } } }
 """
-LOCS = ["a.graphql", "b.graphqls", "sub/c.gql", "sub/a.graphql", "zz/deep/d.graphql"]
+LOCS = ["a.graphql", "sub/a.graphql", "b.graphqls", "sub/c.gql", "zz/deep/d.graphql"]  # two files of one name in different directories come first
 NLOC = int(os.environ.get("VERIF_C19_LOCS", "3"))
 NDEF = len(DEFS)
 
